@@ -6,6 +6,14 @@ ALL = ["C%02d" % i for i in range(1, 21)]
 
 # id -> (engine, level, technique, text, note, design_ref)
 CHECKS = {
+ "C14": ("mc-cli", "exploration",
+   "full product of convert option combinations x input-file permutations against the freshly built adlt binary, reference selection computed in the harness",
+   "Every combination of -b/-e/--lcs/--eac/-f (DLF and dlt-convert format)/--sort/output style/-o and every order of three generated input files (plus a duplicated file argument) is run through the adlt binary built from the working tree; printed indices, their order, the shown text and the re-read -o file must equal the selection the harness derives from the option meanings on the generated messages (merged order, lifecycle ids, independent --eac evaluation).",
+   "Trusted: harness-side option semantics; one generated 16-message input set. Lifecycle ids of a fresh process are assumed to count from 1 in creation order (the check would fail on the unchanged tree otherwise).", "4 C14"),
+ "C18": ("mc-seq", "exploration",
+   "exhaustive enumeration of typed argument sequences x encoders x every truncation point x every single field corruption on the real verbose payload encoder/decoder/renderer",
+   "All argument sequences of length 0..2/3 over a 119-symbol value alphabet (every type and width, extremes, NaN/inf, empty/NUL/control/non-UTF-8/maximal strings, raw) and longer ones over sub-alphabets, through payload_from_args (both byte orders), the serde Serializer and dlt_args!; every cut of the encoded payload; every replacement of each type-info (boundary table, 32 bit flips, TYLE values, unsupported kinds) and 16-bit length field. Oracle: same count/types/raw bytes; text matches an independently written canonical matcher (only what the statement fixes); truncated => prefix; corrupted field j => arguments before j intact; returned slices inside the payload; no panic.",
+   "Trusted: harness-side canonical text matcher. Float spelling and display of non-UTF-8 bytes are deliberately not bound.", "4 C18"),
  "C09": ("mc-seq", "exploration",
    "exhaustive enumeration of source families (sizes x reception-time tuples x start indices x constructors) on the real merge / chain iterators",
    "Every family of <= 3-5 sources with <= 2-4 messages and all reception-time tuples over a small grid (equal, increasing, unordered), through all five constructors (merge, merge-or-single, chain, chain-or-single with exact and inexact size hints), Vec-backed and real DltMessageIterator-backed, merge-of-chains as adlt convert builds it, every placement of empty sources, and (in a subprocess) chains of up to 10^4 (quick) / 10^6 (thorough) empty sources. Oracle: multiset equality, per-source order, consecutive indices from the start index, reception-time order when every source is ordered, chain = concatenation.",
@@ -107,6 +115,8 @@ def main():
          "kind_free_text": "shuttle runtime + own bounded DFS scheduler over real adlt stage threads (cfg adlt_verif_sched)"},
         {"name": "mc-remote", "path": "/verif/mc/src/rem.rs", "serves_properties": ["C15", "C16"],
          "kind_free_text": "explorer in /verif/mc driving the hidden cfg(adlt_verif) subcommand 'adlt verif-driver' (real remote handler functions over an in-memory websocket, explicit message-arrival ticks)"},
+        {"name": "mc-cli", "path": "/verif/mc/src/c14.rs", "serves_properties": ["C14"],
+         "kind_free_text": "explorer in /verif/mc running the adlt binary built from the working tree (cfg adlt_verif) over an option x input product"},
         {"name": "mc-seq", "path": "/verif/mc", "serves_properties": [p for p in ALL if p in CHECKS and CHECKS[p][0]=="mc-seq"],
          "kind_free_text": "Rust explorers linked against /repo's library (cfg adlt_verif): exhaustive enumeration of input-shape products, operation sequences, deviation-bounded event streams and explicit-state BFS by re-execution, sharded over worker processes"},
       ],
